@@ -21,8 +21,12 @@ func vOptFloat64(name string) *float64        { panic("gosym intrinsic") } // ni
 func vOptInt64(name string) *int64            { panic("gosym intrinsic") }
 func vDeepEq(a, b interface{}) bool           { panic("gosym intrinsic") } // reflect.DeepEqual as a solver term
 
+func vInSet(b byte, set string) bool { panic("gosym intrinsic") } // b is one of the bytes of set (one term, no fork)
+
 // oracles on JSON texts
 func vJSONEq(a, b []byte) bool      { panic("gosym intrinsic") } // equal as JSON values (member order irrelevant)
 func vJSONBytesEq(a, b []byte) bool { panic("gosym intrinsic") } // byte-identical encoder output
 func vJSONNoDup(a []byte) bool      { panic("gosym intrinsic") } // no object repeats a member name
 func vJSONValid(a []byte) bool      { panic("gosym intrinsic") }
+
+func vGetwd() string { panic("gosym intrinsic") } // the working directory (model: /cwd/w; native: os.Getwd)
